@@ -24,8 +24,7 @@ let () =
       | "MERGE" :: t -> G_tools.cmd_merge t
       | "ICOUNT" :: t -> G_tools.cmd_icount t
       | "CRASHAT" :: _ -> out "ok"
-      | "FAILONCE" :: _ -> out "ok"
-      | "SHORTONCE" :: _ -> out "ok"
+      | ("FAILONCE" | "SHORTONCE" | "FAILFROM") :: _ as t -> G_w.set_plan t
       | "PRE" :: _ -> out "ok"
       | c :: t -> if not (More.cmd_more c t) then out ("? unknown command " ^ c)
     end
